@@ -9,6 +9,7 @@ and byte positions, or the same `Lex(index, char?)`.
 -/
 import KikiVerif.Spec.Lex
 import KikiVerif.Proofs.Tokenize
+import KikiVerif.Proofs.Positions
 
 namespace KikiVerif.C08
 open KikiVerif KikiVerif.Spec KikiVerif.Text
@@ -67,9 +68,18 @@ theorem C08_tokenize_total (src : Str) :
   rw [C08_tokenize_eq_spec]
   exact C08_scan_total src.length src 0 (Nat.le_refl _)
 
+/-- **C08, byte positions**: every token `tokenize` returns sits in the source exactly where it says — slicing the
+source from the token's start offset over the byte length of its text gives back its text (for a terminal
+identifier the text is `$` followed by the name and the start is `dollarless_position - 1 ≥ 0`) -/
+theorem C08_positions (src : Str) (ts : List Token) (h : Tokenize.tokenize src = .ok ts) :
+    ∀ t ∈ ts, Text.sliceBytes src (Spec.tokStart t) (Spec.tokStart t + Text.blen (Spec.tokText t)) = some (Spec.tokText t) ∧
+      Spec.posOk t :=
+  Spec.tokenize_positions src ts h
+
 end KikiVerif.C08
 
 #print axioms KikiVerif.C08.C08_scan_total
 #print axioms KikiVerif.C08.C08_double_colon
 #print axioms KikiVerif.C08.C08_tokenize_eq_spec
 #print axioms KikiVerif.C08.C08_tokenize_total
+#print axioms KikiVerif.C08.C08_positions
